@@ -33,7 +33,8 @@ def ws2dgu(y, lmda, nodata, out):
         n = np.sum(w)
 
         if n > 1:
-            z = ws2d(y, lmda, w)
+            # cells without weight must not reach the solver (0 * nan = nan)
+            z = ws2d(np.where(w == 0, 0.0, y), lmda, w)
             np.round(z, 0, out)
         else:
             out[:] = y[:]
